@@ -1,0 +1,19 @@
+//go:build verif
+
+package broadcast
+
+// VerifHook, when set, is called at every schedule point of this package:
+//
+//	site 0: HoldLock entry, before the mutex is taken
+//	site 1: HoldLock exit, after the mutex was released
+//	site 2: HoldLockMaybeAsync slow-path goroutine, before the mutex is taken
+//	site 3: HoldLockMaybeAsync slow-path goroutine, after the mutex was released
+//
+// obj is the *Broadcast.
+var VerifHook func(site int, obj any)
+
+func verifPoint(site int, obj any) {
+	if h := VerifHook; h != nil {
+		h(site, obj)
+	}
+}
